@@ -14,7 +14,9 @@ import (
 	"verif/harness/run"
 )
 
-var mixedRunes = []rune{'a', 'b', 'é', 'ß', '日', '😀', '0', ' ', '�', 0x7f, 0x80, 0x7ff, 0x800, 0xd7ff, 0xe000, 0xffff, 0x10000, 0x10ffff}
+var mixedRunes = []rune{'a', 'b', 'é', 'ß', '日', '😀', '0', ' ', '�', 0x7f, 0x80, 0x7ff, 0x800, 0xd7ff, 0xe000, 0xffff, 0x10000, 0x10ffff,
+	// building blocks of grapheme clusters (flags, ZWJ sequences, modifiers, jamo, keycaps): still single code points
+	0x1f1e9, 0x1f1ea, 0x1f1eb, 0x1f1e9, 0x1f1ea, 0x200d, 0xfe0f, 0x1f3fb, 0x1f468, 0x1100, 0x1161, 0x20e3}
 
 // sliceSubject draws an array or a mixed-width string of length n.
 func sliceSubject(t *rapid.T, n int) jv.Val {
